@@ -103,7 +103,7 @@ func c17Cases(r *core.Run) []*c17Case {
 	// --- plugin path shapes (single plugin)
 	shapes := []struct {
 		path       string
-		rejected   bool // must be refused (contains "..")
+		rejected   bool // contains "..": the run may refuse it or confine it, but nothing may be written outside
 		conflict   bool // denotes the core generator's own file
 		writePhase bool
 	}{
@@ -137,10 +137,10 @@ func c17Cases(r *core.Run) []*c17Case {
 		c := simple()
 		c.desc = fmt.Sprintf("plugin path %q", s.path)
 		c.plugins = []c17Plugin{okPlugin("plugA", map[string]string{s.path: "plugin content"})}
-		c.mustFail = s.rejected || s.conflict
+		c.mustFail = s.conflict
 		c.conflict = s.conflict
 		c.writePhase = s.writePhase
-		c.mustOK = !c.mustFail && !s.writePhase
+		c.mustOK = !c.mustFail && !s.writePhase && !s.rejected
 		add(c)
 	}
 	// --- two plugins producing the same file (also through aliases)
@@ -198,6 +198,30 @@ func c17Cases(r *core.Run) []*c17Case {
 			add(c)
 		}
 	}
+	// --- a large amount of generated code before the failure point (an
+	// implementation that spills files to disk early would leave them behind)
+	{
+		var big strings.Builder
+		big.WriteString("include \"./m1.thrift\"\n")
+		for i := 0; i < 420; i++ {
+			fmt.Fprintf(&big, "struct Big%d {\n", i)
+			for f := 1; f <= 8; f++ {
+				fmt.Fprintf(&big, "  %d: optional map<string, list<i64>> f%d\n", f, f)
+			}
+			big.WriteString("}\n")
+		}
+		c := &c17Case{desc: "5+ MiB of generated code, then an included module cannot be generated", input: "thrift/m0.thrift", mustFail: true,
+			thrift: map[string]string{"thrift/m0.thrift": big.String(), "thrift/m1.thrift": badGenThrift}}
+		add(c)
+		c = &c17Case{desc: "5+ MiB of generated code, then the plugin fails at generate", input: "thrift/m0.thrift", mustFail: true,
+			thrift:  map[string]string{"thrift/m0.thrift": big.String(), "thrift/m1.thrift": "struct Small {}\n"},
+			plugins: []c17Plugin{{name: "plugA", files: map[string]string{"p/x.go": "x"}, fail: "generate"}}}
+		add(c)
+		c = &c17Case{desc: "5+ MiB of generated code, nothing wrong", input: "thrift/m0.thrift", mustOK: true,
+			thrift:    map[string]string{"thrift/m0.thrift": big.String(), "thrift/m1.thrift": "struct Small {}\n"},
+			expectGen: []string{"m0/m0.go", "m1/m1.go"}}
+		add(c)
+	}
 	// --- layouts
 	{
 		c := &c17Case{desc: "nested directories, inferred root", input: "thrift/a/top.thrift", mustOK: true,
@@ -208,7 +232,8 @@ func c17Cases(r *core.Run) []*c17Case {
 			thrift:    map[string]string{"thrift/a/top.thrift": "include \"../b/c/leaf.thrift\"\nstruct T {\n  1: optional leaf.L l\n}\n", "thrift/b/c/leaf.thrift": "struct L {}\n"},
 			expectGen: []string{"thrift/a/top/top.go", "thrift/b/c/leaf/leaf.go"}}
 		add(c)
-		c = &c17Case{desc: "included file outside the explicit thrift root", input: "thrift/a/top.thrift", root: "thrift/a", mustFail: true,
+		// outcome free (the statement does not say it must be refused); confinement and all-or-nothing still apply
+		c = &c17Case{desc: "included file outside the explicit thrift root", input: "thrift/a/top.thrift", root: "thrift/a",
 			thrift: map[string]string{"thrift/a/top.thrift": "include \"../b/leaf.thrift\"\nstruct T {\n  1: optional leaf.L l\n}\n", "thrift/b/leaf.thrift": "struct L {}\n"}}
 		add(c)
 		c = &c17Case{desc: "included file in the sibling 'other' directory, inferred root is the common parent", input: "thrift/top.thrift", mustOK: true,
@@ -223,7 +248,7 @@ func c17Cases(r *core.Run) []*c17Case {
 			thrift:    map[string]string{"thrift/a/top.thrift": "struct T {}\n"},
 			expectGen: []string{"top/gen.go"}}
 		add(c)
-		c = &c17Case{desc: "output-file without .go is refused", input: "thrift/a/top.thrift", mustFail: true, args: []string{"--output-file", "gen.txt"},
+		c = &c17Case{desc: "output-file without .go (outcome free)", input: "thrift/a/top.thrift", args: []string{"--output-file", "gen.txt"},
 			thrift: map[string]string{"thrift/a/top.thrift": "struct T {}\n"}}
 		add(c)
 	}
@@ -236,9 +261,10 @@ func c17Cases(r *core.Run) []*c17Case {
 	for k := 0; k < extra; k++ {
 		c := simple()
 		np := rr.Range(1, 3)
-		paths := []string{"p/x.go", "./p/x.go", "q/y.go", "/q/y.go", "svc/svc.go", "./svc/svc.go", "../up.txt", "ok/z.txt", "ok//z.txt", "deep/a/b/c.txt", "x/../y.txt"}
+		paths := []string{"p/x.go", "./p/x.go", "q/y.go", "/q/y.go", "svc/svc.go", "./svc/svc.go", "../up.txt", "ok/z.txt", "ok//z.txt", "deep/a/b/c.txt", "x/../y.txt", "x/../../up2.txt", "deep/a/../../../up3.txt"}
 		used := map[string]bool{"/svc/svc.go": true}
 		c.desc = "random:"
+		dotdot := false
 		for p := 0; p < np; p++ {
 			pl := c17Plugin{name: fmt.Sprintf("plug%c", 'A'+p), files: map[string]string{}}
 			for n := rr.Range(1, 2); n > 0; n-- {
@@ -251,7 +277,7 @@ func c17Cases(r *core.Run) []*c17Case {
 			}
 			for pa := range pl.files {
 				if strings.Contains(pa, "..") {
-					c.mustFail = true
+					dotdot = true // may be refused or confined: outcome free, confinement checked
 				}
 				key := filepath.Clean("/" + pa)
 				if used[key] {
@@ -267,7 +293,7 @@ func c17Cases(r *core.Run) []*c17Case {
 		}
 		// a failing plugin makes files of the same plugin irrelevant for conflicts,
 		// but the run must fail anyway
-		c.mustOK = !c.mustFail
+		c.mustOK = !c.mustFail && !dotdot
 		c.strace = k%5 == 0
 		add(c)
 	}
@@ -440,6 +466,13 @@ func runC17(r *core.Run, c *c17Case, ver int32, host, vplugin string) {
 			if len(created)+len(modified)+len(removed) > 0 && !c.writePhase {
 				viol(fmt.Sprintf("the run failed but the output directory was changed (%d created, %d modified, %d removed)", len(created), len(modified), len(removed)))
 			}
+		}
+	}
+	if !c.mustFail && !c.mustOK && exit != 0 && !c.writePhase {
+		// outcome was free, the run chose to fail: then nothing may have changed
+		r.Add("runs_failed_by_choice", 1)
+		if len(created)+len(modified)+len(removed) > 0 {
+			viol(fmt.Sprintf("the run failed but the output directory was changed (%d created, %d modified, %d removed)", len(created), len(modified), len(removed)))
 		}
 	}
 	if c.mustOK {
